@@ -21,6 +21,10 @@ func init() {
 const poolGet = "(*github.com/valyala/bytebufferpool.Pool).Get"
 const poolPut = "(*github.com/valyala/bytebufferpool.Pool).Put"
 
+// any object pool: what Get hands out may be handed to another instance as soon as it has been Put back
+func isPoolGet(name string) bool { return name == poolGet || name == "(*sync.Pool).Get" }
+func isPoolPut(name string) bool { return name == poolPut || name == "(*sync.Pool).Put" }
+
 func fullCalleeName(c *ssa.CallCommon) string {
 	if c.IsInvoke() {
 		return "invoke " + c.Method.FullName()
@@ -49,6 +53,11 @@ var nonRetaining = map[string]string{
 	"(*github.com/valyala/bytebufferpool.ByteBuffer).Len":         "",
 	"(*github.com/valyala/bytebufferpool.ByteBuffer).Reset":       "",
 	"encoding/binary.Write":                                       "",
+	"(*bytes.Buffer).Bytes":                                       "returns the buffer's bytes (alias)",
+	"(*bytes.Buffer).Reset":                                       "",
+	"(*bytes.Buffer).Len":                                         "",
+	"(*bytes.Buffer).Write":                                       "",
+	"(*bytes.Buffer).String":                                      "copies",
 	"(encoding/binary.littleEndian).PutUint32":                    "",
 	"(encoding/binary.littleEndian).PutUint64":                    "",
 	"(encoding/binary.littleEndian).PutUint16":                    "",
@@ -58,6 +67,7 @@ var returnsAliasOpaque = map[string]bool{
 	"github.com/golang/snappy.Encode":                       true,
 	"(*github.com/valyala/bytebufferpool.ByteBuffer).Bytes": true,
 	"compress/gzip.NewWriterLevel":                          true,
+	"(*bytes.Buffer).Bytes":                                 true,
 }
 
 type poSummary struct {
@@ -364,7 +374,7 @@ func (p *poAn) analyse(f *ssa.Function, seeds []ssa.Value, owner bool) *poSummar
 						}
 						break
 					}
-					if name == poolPut {
+					if isPoolPut(name) {
 						break
 					}
 					why, ok := nonRetaining[name]
@@ -469,7 +479,7 @@ func (p *poAn) analyse(f *ssa.Function, seeds []ssa.Value, owner bool) *poSummar
 			case ssa.CallInstruction:
 				c := x.Common()
 				name := fullCalleeName(c)
-				if name == poolPut || name == "builtin len" || name == "builtin cap" {
+				if isPoolPut(name) || name == "builtin len" || name == "builtin cap" {
 					continue
 				}
 				if name == "github.com/golang/snappy.Encode" && len(c.Args) == 2 && al[c.Args[0]] && !(al[c.Args[1]] && !clean[c.Args[1]]) {
@@ -775,7 +785,7 @@ func poFunction(u *Universe, p *poAn, r *Report, f *ssa.Function) {
 	for _, b := range f.Blocks {
 		for _, ins := range b.Instrs {
 			call, ok := ins.(*ssa.Call)
-			if !ok || fullCalleeName(call.Common()) != poolGet {
+			if !ok || !isPoolGet(fullCalleeName(call.Common())) {
 				continue
 			}
 			ord++
@@ -788,7 +798,7 @@ func poFunction(u *Universe, p *poAn, r *Report, f *ssa.Function) {
 			for _, b2 := range f.Blocks {
 				for _, i2 := range b2.Instrs {
 					ci, ok := i2.(ssa.CallInstruction)
-					if !ok || fullCalleeName(ci.Common()) != poolPut || len(ci.Common().Args) != 2 {
+					if !ok || !isPoolPut(fullCalleeName(ci.Common())) || len(ci.Common().Args) != 2 {
 						continue
 					}
 					if ci.Common().Args[1] != ssa.Value(call) {
